@@ -346,6 +346,40 @@ def large_case(rec, hub, seed):
         rec.violation(MF, "from_df:entries-misplaced-for-a-dimension-with-more-than-32767-items", {"n_items": n, "n_wrong_entries": int(len(bad)), "first_wrong_position": bad[0].tolist()})
 
 
+def large_presentations_case(rec, hub, seed, tmpdir=None):
+    """a complete table of 12 000 rows (150 x 80 x 1 labels) that is NOT in array order, presented the ways large tables come: permuted
+    rows with a fresh running row index, labels held in a (Multi)Index, the wide layout, a CSV round trip"""
+    import io
+
+    fd = hub.fd
+    rng = case_nprng(seed, "c11.large-presentations", 0, 0)
+    d1 = fd.Dimension(letter="p", name="product", items=[f"p{int(q):04d}" for q in rng.permutation(150)], dtype=str)
+    d2 = fd.Dimension(letter="t", name="time", items=[1900 + int(q) for q in rng.permutation(80)], dtype=int)
+    d3 = fd.Dimension(letter="s", name="scenario", items=["only"], dtype=str)
+    dims = fd.DimensionSet(dim_list=[d1, d2, d3])
+    values = (rng.permutation(150 * 80).astype(float) * 0.25 + 4096.0).reshape(150, 80, 1)
+    long = pd.DataFrame({"product": np.repeat(d1.items, 80), "time": np.tile(d2.items, 150), "scenario": "only", "value": values.ravel()})
+    perm = long.iloc[rng.permutation(len(long))]
+    wide = long.pivot(index=["product", "scenario"], columns="time", values="value")
+    frames = {
+        "permuted rows, fresh running index": perm.reset_index(drop=True),
+        "permuted rows, labels in the index": perm.set_index(["product", "time", "scenario"]),
+        "sorted by another column, fresh running index": long.sort_values(["time", "product"]).reset_index(drop=True),
+        "wide (time in columns), labels in the index": wide,
+        "wide (time in columns), fresh running index": wide.reset_index(),
+        "csv round trip of permuted rows": pd.read_csv(io.StringIO(perm.to_csv(index=False))),
+    }
+    for how, df in frames.items():
+        rec.event(MF, sig=f"large-presentations|{how}", cls=f"from_df|12000 rows|{how}")
+        try:
+            y = fd.FlodymArray.from_df(dims=dims, df=df.copy())
+        except Exception as e:
+            rec.violation(MF, "from_df:raised-on-a-large-complete-table", {"presentation": how, "exc": repr(e)[:300]})
+            continue
+        if not np.array_equal(np.asarray(y.values, dtype=float), values):
+            rec.violation(MF, "from_df:entries-misplaced-in-a-large-complete-table", {"presentation": how, "n_wrong_entries": int((np.asarray(y.values) != values).sum())})
+
+
 def run(rec, hub, tier, seed, shard, nshards, budget):
     register_to_df(hub)
     rec.require(MF, 50)
@@ -353,6 +387,8 @@ def run(rec, hub, tier, seed, shard, nshards, budget):
     if shard == 0:
         rec.set_case(driver="c11.large", seed=seed, tier=tier, shard=shard, nshards=nshards, idx=0)
         large_case(rec, hub, seed)
+        rec.set_case(driver="c11.large-presentations", seed=seed, tier=tier, shard=shard, nshards=nshards, idx=0)
+        large_presentations_case(rec, hub, seed)
     n = 1500 if tier == "quick" else 6000
     for kk in range(n):
         if not budget.ok():
@@ -370,6 +406,8 @@ def replay(rec, hub, case):
     rec.set_case(**case)
     if case["driver"] == "c11.truncation":
         truncation_case(rec, hub, case_nprng(case["seed"], "c11.truncation", 0, case["idx"]), case["idx"])
+    elif case["driver"] == "c11.large-presentations":
+        large_presentations_case(rec, hub, case["seed"])
     elif case["driver"] == "c11.large":
         large_case(rec, hub, case["seed"])
     else:
